@@ -384,7 +384,8 @@ fn nonce32(n: &[u8]) -> Option<Key<32>> {
 pub fn core_build(keys: &LibKeys, nonce: &[u8], msg: &str, footer: Option<&str>, assertion: Option<&str>) -> Result<String, LibErr> {
   macro_rules! setup {
     ($V:ident, $P:ident, assertion) => {{
-      let mut b = Paseto::<$V, $P>::builder();
+      // both public ways of obtaining the core builder are exercised
+      let mut b = if msg.len() % 2 == 0 { Paseto::<$V, $P>::builder() } else { Paseto::<$V, $P>::default() };
       b.set_payload(Payload::from(msg));
       if let Some(f) = footer {
         b.set_footer(Footer::from(f));
@@ -398,7 +399,7 @@ pub fn core_build(keys: &LibKeys, nonce: &[u8], msg: &str, footer: Option<&str>,
       if assertion.is_some() {
         return Err(LibErr::other("harness: v1/v2 take no implicit assertion"));
       }
-      let mut b = Paseto::<$V, $P>::builder();
+      let mut b = if msg.len() % 2 == 0 { Paseto::<$V, $P>::builder() } else { Paseto::<$V, $P>::default() };
       b.set_payload(Payload::from(msg));
       if let Some(f) = footer {
         b.set_footer(Footer::from(f));
@@ -803,6 +804,8 @@ pub trait Builder<'a> {
   fn set(&mut self, c: &'a ClaimSpec) -> Result<(), LibErr>;
   /// `GenericBuilder::remove_claim`; the batteries-included builder has no such method (returns false)
   fn remove(&mut self, key: &str) -> bool;
+  /// `GenericBuilder::extend_claims` with raw (key, value) entries; false for the batteries-included builder
+  fn extend(&mut self, entries: &[(String, Value)]) -> bool;
   fn footer(&mut self, f: &'a str);
   /// false when the protocol has no implicit assertions (the method does not exist for v1/v2)
   fn assertion(&mut self, a: &'a str) -> bool;
@@ -824,6 +827,14 @@ macro_rules! impl_builders {
       }
       fn remove(&mut self, key: &str) -> bool {
         self.0.remove_claim(key);
+        true
+      }
+      fn extend(&mut self, entries: &[(String, Value)]) -> bool {
+        let mut m: std::collections::HashMap<String, Box<dyn erased_serde::Serialize>> = std::collections::HashMap::new();
+        for (k, v) in entries {
+          m.insert(k.clone(), Box::new(v.clone()));
+        }
+        self.0.extend_claims(m);
         true
       }
       fn footer(&mut self, f: &'a str) {
@@ -852,6 +863,9 @@ macro_rules! impl_builders {
         })
       }
       fn remove(&mut self, _key: &str) -> bool {
+        false
+      }
+      fn extend(&mut self, _entries: &[(String, Value)]) -> bool {
         false
       }
       fn footer(&mut self, f: &'a str) {
@@ -923,6 +937,10 @@ pub trait Parser<'a> {
   fn assertion(&mut self, a: &'a str) -> bool;
   fn check(&mut self, c: &'a ClaimSpec) -> Result<(), LibErr>;
   fn validate(&mut self, c: &'a ClaimSpec, f: &'static ValidatorFn) -> Result<(), LibErr>;
+  /// `GenericParser::extend_check_claims` with caller-defined claims; false for the batteries-included parser
+  fn extend_checks(&mut self, entries: &[(String, Value)]) -> bool;
+  /// `GenericParser::extend_validation_claims`; false for the batteries-included parser
+  fn extend_validators(&mut self, entries: &[(String, &'static ValidatorFn)]) -> bool;
   fn parse(&mut self, token: &'a str, keys: &'a LibKeys<'a>) -> Result<Value, LibErr>;
 }
 
@@ -948,6 +966,23 @@ macro_rules! impl_parsers {
           self.0.validate_claim(cl, f);
         })
       }
+      fn extend_checks(&mut self, entries: &[(String, Value)]) -> bool {
+        let mut m: std::collections::HashMap<String, Box<dyn erased_serde::Serialize + 'a>> = std::collections::HashMap::new();
+        for (k, v) in entries {
+          m.insert(k.clone(), Box::new(AnyClaim { key: k.clone(), value: v.clone() }));
+        }
+        self.0.extend_check_claims(m);
+        true
+      }
+      fn extend_validators(&mut self, entries: &[(String, &'static ValidatorFn)]) -> bool {
+        let mut m: ValidatorMap = std::collections::HashMap::new();
+        for (k, f) in entries {
+          let f: &'static ValidatorFn = *f;
+          m.insert(k.clone(), Box::new(move |key: &str, v: &Value| f(key, v)));
+        }
+        self.0.extend_validation_claims(m);
+        true
+      }
       fn parse(&mut self, token: &'a str, $keys: &'a LibKeys<'a>) -> Result<Value, LibErr> {
         match $keys {
           $keypat => self.0.parse(token, $keyexpr).map_err(|e| parser_err(&e)),
@@ -972,6 +1007,12 @@ macro_rules! impl_parsers {
         with_claim!(c, borrow_str, |cl| {
           self.0.validate_claim(cl, f);
         })
+      }
+      fn extend_checks(&mut self, _entries: &[(String, Value)]) -> bool {
+        false
+      }
+      fn extend_validators(&mut self, _entries: &[(String, &'static ValidatorFn)]) -> bool {
+        false
       }
       fn parse(&mut self, token: &'a str, $keys: &'a LibKeys<'a>) -> Result<Value, LibErr> {
         match $keys {
